@@ -679,7 +679,7 @@ class XsdGroup(XsdComponent, MutableSequence[ModelParticleType],
     @schema_cache
     def is_restriction(self, other: ModelParticleType, check_occurs: bool = True) -> bool:
         if not self._group:
-            return True
+            return not check_occurs or other.is_emptiable()
         elif not isinstance(other, ParticleMixin):
             raise XMLSchemaValueError("the argument 'other' must be an XSD particle")
         elif not isinstance(other, XsdGroup):
@@ -1292,7 +1292,7 @@ class Xsd11Group(XsdGroup):
 
     def is_restriction(self, other: ModelParticleType, check_occurs: bool = True) -> bool:
         if not self._group:
-            return True
+            return not check_occurs or other.is_emptiable()
         elif not isinstance(other, ParticleMixin):
             raise XMLSchemaValueError("the argument 'base' must be a %r instance" % ParticleMixin)
         elif not isinstance(other, XsdGroup):
